@@ -74,7 +74,7 @@ PROPS = {
         "assumptions": ["the reference C reader/writer is rendered as an independent Lean specification (Spec/Layout.lean, Spec/Fnv.lean) and an independent Python reference in the search; a compiled C program is not part of the registered checks"],
     },
     "C07": {
-        "suites": [("sizing", None), ("bloom", [(r"\.(new|load)\b", ["geom", "fpr32", "ret"])]), ("cms", [(r"\.new\b", ["geom", "ret"])])],
+        "suites": [("sizing", None), ("bloom", [(r"\.(new|load)\b", ["geom", "fpr32", "ret"])]), ("cms", [(r"\.new\b", ["geom", "ret"])]), ("cuckoo", [(r"\.(new|load)\b", ["fpbits", "ret"])])],
         "search": True,
         "assumptions": [
             "theorems are over the real numbers on the same generic definitions that the Float instance executes; IEEE-754 rounding between the two is NOT verified (the sizing suite compares the Float instance with the code bit-for-bit on sampled inputs, the search evaluates the inequalities exactly / with 50-digit decimals)",
